@@ -125,6 +125,25 @@ theorem claimedBy_filter_not {own n : String} {l : Compute.Fields} (h : ClaimedB
   rw [this]
   cases (n == own) <;> rfl
 
+theorem takeWhile_run {α} (p : α → Bool) (A R : List α) (hA : ∀ a ∈ A, p a = true) (hR : ∀ r ∈ R, p r = false) :
+    (A ++ R).takeWhile p = A ∧ (A ++ R).dropWhile p = R := by
+  induction A with
+  | nil =>
+    cases R with
+    | nil => exact ⟨rfl, rfl⟩
+    | cons r rs => simp [List.takeWhile_cons, List.dropWhile_cons, hR r (by simp)]
+  | cons a as ih =>
+    have := ih (fun x hx => hA x (List.mem_cons_of_mem _ hx))
+    simp [List.takeWhile_cons, List.dropWhile_cons, hA a (by simp), this.1, this.2]
+
+theorem claimedBy_has {own : String} {l : Compute.Fields} (h : ClaimedBy own l) (hs : own ∈ stackNames) :
+    ∀ x ∈ l, strContains x.1 own = true := by
+  intro x hx; rw [claims_contains (h x hx) hs]; simp
+
+theorem claimedBy_hasnot {own n : String} {l : Compute.Fields} (h : ClaimedBy own l) (hn : n ∈ stackNames) (hne : (n == own) = false) :
+    ∀ x ∈ l, strContains x.1 n = false := by
+  intro x hx; rw [claims_contains (h x hx) hn]; exact hne
+
 theorem payload_filter (n : String) (hn : n ∈ stackNames) (pl : ABuf) :
     [(Gen.payloadId, pl)].filter (fun f => strContains f.1 n) = [] ∧ [(Gen.payloadId, pl)].filter (fun f => !strContains f.1 n) = [(Gen.payloadId, pl)] := by
   simp [payload_unclaimed n hn]
@@ -155,15 +174,25 @@ theorem packetUnparse_three {ip : ParserInst} {name : String} {layout : Layout} 
   have duc := names_distinct.2.2.2.2.2.2.2.2
   have sym : ∀ {x y : String}, (x == y) = false → (y == x) = false := by
     intro x y h; rw [beq_eq_false_iff_ne] at h ⊢; exact fun e => h e.symm
+  have hpl : ∀ n ∈ stackNames, ∀ x ∈ [(Gen.payloadId, pl)], strContains x.1 n = false := by
+    intro n hn x hx; simp only [List.mem_singleton] at hx; subst hx; exact payload_unclaimed n hn
+  have r1 := takeWhile_run (fun f : String × ABuf => strContains f.1 name) A (B ++ (C ++ [(Gen.payloadId, pl)])) (claimedBy_has hA m1)
+    (by intro r hr
+        rcases List.mem_append.mp hr with h | h
+        · exact claimedBy_hasnot hB m1 d1u r h
+        · rcases List.mem_append.mp h with h | h
+          · exact claimedBy_hasnot hC m1 d1c r h
+          · exact hpl name m1 r h)
+  have r2 := takeWhile_run (fun f : String × ABuf => strContains f.1 Gen.udpHeaderId) B (C ++ [(Gen.payloadId, pl)]) (claimedBy_has hB mu)
+    (by intro r hr
+        rcases List.mem_append.mp hr with h | h
+        · exact claimedBy_hasnot hC mu duc r h
+        · exact hpl _ mu r h)
+  have r3 := takeWhile_run (fun f : String × ABuf => strContains f.1 Gen.coapHeaderId) C [(Gen.payloadId, pl)] (claimedBy_has hC mc) (hpl _ mc)
   have hsegs : SegsOf (A ++ B ++ C ++ [(Gen.payloadId, pl)])
       [(ip, name, A), (udp, Gen.udpHeaderId, B), (cs, Gen.coapHeaderId, C)] ∧
       leftOver (A ++ B ++ C ++ [(Gen.payloadId, pl)]) [(ip, name, A), (udp, Gen.udpHeaderId, B), (cs, Gen.coapHeaderId, C)] = [(Gen.payloadId, pl)] := by
-    simp only [SegsOf, leftOver, List.filter_append, claimedBy_filter hA m1, claimedBy_filter hB m1, claimedBy_filter hC m1,
-      claimedBy_filter_not hA m1, claimedBy_filter_not hB m1, claimedBy_filter_not hC m1, (payload_filter name m1 pl).1, (payload_filter name m1 pl).2,
-      beq_self_eq_true, if_true, sym d1u, sym d1c, d1u, d1c, duc, Bool.false_eq_true, if_false, List.append_nil, List.nil_append, true_and, and_true,
-      claimedBy_filter hB mu, claimedBy_filter hC mu, claimedBy_filter_not hB mu, claimedBy_filter_not hC mu,
-      (payload_filter _ mu pl).1, (payload_filter _ mu pl).2, sym duc,
-      claimedBy_filter hC mc, claimedBy_filter_not hC mc, (payload_filter _ mc pl).1, (payload_filter _ mc pl).2, and_self]
+    simp only [SegsOf, leftOver, List.append_assoc, r1.1, r1.2, r2.1, r2.2, r3.1, r3.2, and_self]
   unfold packetUnparse
   simp only [List.mapM_cons, List.mapM_nil, n1, n2, n3, bind, Except.bind, pure, Except.pure]
   have hz : [ip, udp, cs].zip [name, Gen.udpHeaderId, Gen.coapHeaderId] =
@@ -179,10 +208,11 @@ theorem packetUnparse_one (cs : ParserInst) (hc : cs.cls = "CoAPParser") (C : Co
     packetUnparse [cs] (C ++ [(Gen.payloadId, pl)]) = (headerUnparse cs C).map (fun c => c ++ [(Gen.payloadId, pl)]) := by
   have n3 : parserNameOf cs = .ok Gen.coapHeaderId := by unfold parserNameOf; rw [hc]; rfl
   have mc := names_distinct.2.2.2.1
+  have r3 := takeWhile_run (fun f : String × ABuf => strContains f.1 Gen.coapHeaderId) C [(Gen.payloadId, pl)] (claimedBy_has hC mc)
+    (by intro x hx; simp only [List.mem_singleton] at hx; subst hx; exact payload_unclaimed _ mc)
   have hsegs : SegsOf (C ++ [(Gen.payloadId, pl)]) [(cs, Gen.coapHeaderId, C)] ∧
       leftOver (C ++ [(Gen.payloadId, pl)]) [(cs, Gen.coapHeaderId, C)] = [(Gen.payloadId, pl)] := by
-    simp only [SegsOf, leftOver, List.filter_append, claimedBy_filter hC mc, claimedBy_filter_not hC mc, (payload_filter _ mc pl).1,
-      (payload_filter _ mc pl).2, beq_self_eq_true, if_true, List.append_nil, List.nil_append, and_self]
+    simp only [SegsOf, leftOver, r3.1, r3.2, and_self]
   unfold packetUnparse
   simp only [List.mapM_cons, List.mapM_nil, n3, bind, Except.bind, pure, Except.pure]
   have hz : [cs].zip [Gen.coapHeaderId] =
